@@ -405,6 +405,7 @@ func runC03(c *Ctx) {
 	}
 	c03Notify(c, pkg)
 	c03RetryFlag(c, pkg)
+	c03WinnerProduces(c, pkg)
 }
 
 // c03Notify (R7): the wake-up token of the phase machine.
@@ -623,4 +624,109 @@ func c03RetryFlag(c *Ctx, pkg string) {
 	}
 	sort.Strings(setters)
 	c.Check("C03.R8", "pkg/proxy.upstreamRequest.setupRetry:single-setter", token.NoPos, len(setters) == 1 && setters[0] == "setupRetry", "only downStream.setupRetry raises the flag", "setupRetry is raised by "+strings.Join(setters, ","))
+}
+
+// c03WinnerProduces (R2): whoever takes the response token produces the outcome.
+// upstreamResponseReceived is a one-shot token: the upstream response, the two timeouts and TerminateStream compete for
+// it with CompareAndSwap(0,1) and everybody else backs off for good. A winner that returns without producing the
+// terminal outcome (installing the reply / running the timeout handler / storing the response and waking the worker)
+// leaves a request that nobody will ever answer: the real response and both timeouts lose their CAS afterwards. Clause:
+// from the success edge of every such CAS no return is reachable that avoids every producer - unless the function hands
+// the verdict to its caller (it returns the CAS value itself, or true).
+func c03WinnerProduces(c *Ctx, pkg string) {
+	isProducer := func(in ssa.Instruction) bool {
+		switch x := in.(type) {
+		case ssa.CallInstruction:
+			n := methodName(x.Common())
+			if strings.HasPrefix(n, "sendHijackReply") || n == "onResponseTimeout" || n == "onPerReqTimeout" || n == "sendNotify" || n == "OnResetStream" || n == "setupRetry" {
+				return true
+			}
+		case *ssa.Store:
+			if _, f, _, ok := fieldAddrInfo(x.Addr); ok && strings.HasPrefix(f, "downstreamResp") {
+				return true
+			}
+		}
+		return false
+	}
+	n := 0
+	for _, fn := range c.PkgFuncs(pkg) {
+		forEachInstr(fn, false, func(f *ssa.Function, in ssa.Instruction) {
+			call, ok := in.(*ssa.Call)
+			if !ok || !isAtomicCall(call.Common(), "CompareAndSwap") {
+				return
+			}
+			if _, fld, _, okf := fieldAddrInfo(call.Common().Args[0]); !okf || fld != "upstreamResponseReceived" {
+				return
+			}
+			o, ok1 := constInt(call.Common().Args[1])
+			nw, ok2 := constInt(call.Common().Args[2])
+			if !ok1 || !ok2 || o != 0 || nw != 1 {
+				return
+			}
+			n++
+			key := fmt.Sprintf("%s:winner-produces#%d", funcKey(f), n)
+			// success edge(s): blocks guarded by the CAS value being true
+			var bad ssa.Instruction
+			for _, b := range f.Blocks {
+				won := false
+				for _, g := range guardsAt(b) {
+					if g.Cond == ssa.Value(call) && g.True {
+						won = true
+					}
+				}
+				if !won || len(b.Instrs) == 0 {
+					continue
+				}
+				// only entry blocks of the success region: a predecessor is not in the region
+				entry := false
+				for _, p := range b.Preds {
+					pw := false
+					for _, g := range guardsAt(p) {
+						if g.Cond == ssa.Value(call) && g.True {
+							pw = true
+						}
+					}
+					if !pw {
+						entry = true
+					}
+				}
+				if !entry {
+					continue
+				}
+				// search from the start of b
+				first := b.Instrs[0]
+				if isProducer(first) {
+					continue
+				}
+				r := existsPath(f, first, func(x ssa.Instruction) bool {
+					ret, ok := x.(*ssa.Return)
+					if !ok {
+						return false
+					}
+					// handing the verdict to the caller
+					for _, rs := range ret.Results {
+						if rs == ssa.Value(call) {
+							return false
+						}
+						if bv, isC := constBool(rs); isC && bv {
+							return false
+						}
+					}
+					return true
+				}, isProducer)
+				if r != nil {
+					bad = r
+				}
+			}
+			// a function that returns the CAS value directly has no success region of its own
+			pos := call.Pos()
+			if bad != nil {
+				pos = bad.Pos()
+			}
+			c.Check("C03.R2", key, pos, bad == nil, "the CAS winner always produces the terminal outcome (or hands the verdict to its caller)", "after winning CompareAndSwap(&upstreamResponseReceived,0,1) the function can return without producing any outcome: the token stays taken, the upstream response and both timeouts lose their CAS afterwards, and the request is never answered")
+		})
+	}
+	if n < 3 {
+		c.Unresolved("C03.R2", fmt.Sprintf("CAS(0,1) sites on upstreamResponseReceived (found %d)", n))
+	}
 }
